@@ -319,8 +319,12 @@ def genCheck (n : Nat) (g : α) : Bool :=
   let c := npow F g (n / 2)
   !(F.beq c F.one) && F.beq (F.mul c c) F.one
 
+/-- `size & (size-1) == 0` (the size test that /repo a837c8b put before the generator check: true of 0 and of the powers of two) -/
+def sizeOk (n : Nat) : Bool := (n &&& (n - 1)) == 0
+
+/-- the checks in the order of the Go text: identity, batched opening, shifted opening, `ErrSize`, `ErrGenerator` -/
 def permVerify (n : Nat) (g : α) (cv : List α) (sv ε ω η : α) (kzgBatch kzgShift : Bool) : Bool :=
-  permIdentity F n cv sv ε ω η && kzgBatch && kzgShift && genCheck F n g
+  permIdentity F n cv sv ε ω η && kzgBatch && kzgShift && sizeOk n && genCheck F n g
 
 /-! ### specification of the prover-supplied parameters `(size, g)` and of the statement
 Used for the CONSISTENT forgeries (`mut=consist`): every component of the proof is derived honestly for a given `(size, g)`,
@@ -367,7 +371,7 @@ def plkIdentity (n : Nat) (g : α) (cv scv : List α) (β γ αc ν : α) : Bool
   F.beq num (F.mul (c 5) nun1)
 
 def plkVerify (n : Nat) (g : α) (cv scv : List α) (β γ αc ν : α) (kzgBatch kzgShift : Bool) : Bool :=
-  kzgBatch && kzgShift && genCheck F n g && plkIdentity F n g cv scv β γ αc ν
+  kzgBatch && kzgShift && sizeOk n && genCheck F n g && plkIdentity F n g cv scv β γ αc ν
 
 /-- every looked-up value is in the table -/
 def isSubset (f t : List α) : Bool := f.all (fun x => t.any (fun y => F.beq x y))
